@@ -2,6 +2,7 @@
 import random
 
 import impl
+import probes
 from core import Verdict
 
 RULE = ('symbol tables with chains, diamonds, cycles of length 1..4, names that are prefixes / suffixes / infixes of other '
@@ -126,7 +127,10 @@ def to_impl(case):
     if case['pre_isa']:
         isa = dict(ISA, predefined={'symbols': [{'name': n, 'value': t} for n, t in case['pre_isa']]})
     a = impl.compile_case(isa, {'main.asm': asm_with_symbols(case)}, defines=[f'{n}={t}' for n, t in case['pre_cli']])
-    return [a]          # the expanded program is run in a second phase (needs the model's answer)
+    # function-level probe: the real Preprocessor on the same definition / line sequence (text in, text out)
+    m = to_model(case)
+    b = probes.call('subst_program', m['pre'], m['items'])
+    return [a, b]       # the expanded program is run in a second phase (needs the model's answer)
 
 
 def judge(case, irs, mr):
@@ -138,6 +142,19 @@ def judge(case, irs, mr):
     if mr['impl'] != mr['spec']:
         return {'verdict': Verdict.CORR, 'tags': tags, 'detail': f'model: resolve {mr["impl"]} != expand {mr["spec"]}; ' + det}
     spec = mr['spec']
+    # direct comparison of the substituted text, line by line
+    pr = irs[1]
+    if pr['status'] == 'ok' and isinstance(pr.get('ret'), dict) and 'lines' in pr['ret']:
+        if 'err' in spec:
+            return {'verdict': Verdict.VIOLATION, 'tags': tags,
+                    'detail': f'spec rejects ({spec["err"]}) but Preprocessor.resolve_symbols returned {pr["ret"]["lines"]}; ' + det}
+        if [x.strip() for x in pr['ret']['lines']] != [x.strip() for x in spec['lines']]:
+            return {'verdict': Verdict.VIOLATION, 'tags': tags,
+                    'detail': f'Preprocessor.resolve_symbols gives {pr["ret"]["lines"]}, whole-word full expansion is {spec["lines"]}; ' + det}
+        tags.append('text-equal')
+    elif 'err' not in spec:
+        return {'verdict': Verdict.VIOLATION, 'tags': tags,
+                'detail': f'Preprocessor rejects ({str(pr.get("ret") or pr.get("msg"))[:150]}) what the spec expands to {spec["lines"]}; ' + det}
     actual = impl.fbytes(ir, 'out.bin') if ir['status'] == 'ok' else None
     if 'err' in spec:
         tags.append('spec-rejects:' + spec['err'])
